@@ -87,6 +87,7 @@ func genPeers(r *Rng, tier string, p *Plan) {
 			p.Add(Op{K: "start", At: now + PickOf(r, int64(0), 1000, 2_000_000), I: int64(i)})
 		}
 	}
+	p.N["cluster_name"] = int64(PickOf(r, 0, 0, 1))
 	p.SortOps()
 }
 
@@ -125,6 +126,7 @@ func runPeers(t *testing.T, p *Plan) *Outcome {
 		}
 		drv := NewDriver(out, p.Seed, clocks...)
 		bus := NewSimBus(drv, out, p.Seed)
+		bus.Prefix = clusterPrefix(p)
 		bus.Faults = BusFaults{DelayMax: us(p.N["delay_max_us"]), LossRate: float64(p.N["loss_pct"]) / 100}
 		nodes := make([]*peerNode, n)
 		validAddr := map[string]bool{}
